@@ -49,6 +49,42 @@ func plan(prop, tier string) []Part {
 			{Name: "mixed", N: q(tier, 600, 12000), Chunk: 40, Procs: []int{2, 16, 4, 1}, Timeout: to},
 			{Name: "nq", N: q(tier, 300, 6000), Chunk: 40, Procs: []int{2, 16, 4, 1}, Timeout: to},
 		}
+	case "C04":
+		return []Part{
+			{Name: "mem", N: q(tier, 500, 10000), Chunk: 40, Procs: []int{2, 16, 4, 1}, Timeout: to},
+			{Name: "pty", N: q(tier, 300, 6000), Chunk: 30, Procs: []int{2, 16, 4}, Timeout: to},
+			{Name: "none", N: q(tier, 60, 600), Chunk: 30, Procs: []int{4}, Timeout: to},
+			{Name: "delay", N: q(tier, 100, 2000), Chunk: 25, Procs: []int{4, 2}, Timeout: to},
+		}
+	case "C18":
+		return []Part{
+			{Name: "mem", N: q(tier, 600, 12000), Chunk: 40, Procs: []int{2, 16, 4, 1}, Timeout: to},
+			{Name: "pty", N: q(tier, 300, 6000), Chunk: 30, Procs: []int{2, 16, 4}, Timeout: to},
+		}
+	case "C17":
+		return []Part{
+			{Name: "manual", N: q(tier, 400, 8000), Chunk: 40, Procs: []int{2, 16, 4, 1}, Timeout: to},
+			{Name: "mixed", N: q(tier, 400, 8000), Chunk: 40, Procs: []int{2, 16, 4, 1}, Timeout: to},
+		}
+	case "C06":
+		return []Part{
+			{Name: "manual", N: q(tier, 300, 6000), Chunk: 30, Procs: []int{2, 16, 4}, Timeout: to},
+			{Name: "auto", N: q(tier, 300, 6000), Chunk: 30, Procs: []int{2, 16, 4, 1}, Timeout: to},
+			{Name: "pop", N: q(tier, 300, 6000), Chunk: 30, Procs: []int{2, 16, 4}, Timeout: to},
+		}
+	case "C12":
+		return []Part{
+			{Name: "mixed", N: q(tier, 600, 12000), Chunk: 40, Procs: []int{2, 16, 4, 1}, Timeout: to},
+			{Name: "nq", N: q(tier, 200, 4000), Chunk: 40, Procs: []int{2, 16, 4, 1}, Timeout: to},
+		}
+	case "C11":
+		return []Part{{Name: "mixed", N: q(tier, 1200, 24000), Chunk: 60, Procs: []int{2, 16, 4, 1}, Timeout: to}}
+	case "C15":
+		return []Part{
+			{Name: "filler", N: q(tier, 500, 10000), Chunk: 40, Procs: []int{2, 16, 4, 1}, Timeout: to},
+			{Name: "output", N: q(tier, 200, 4000), Chunk: 40, Procs: []int{2, 16, 4, 1}, Timeout: to},
+			{Name: "pty", N: q(tier, 150, 3000), Chunk: 30, Procs: []int{2, 16, 4}, Timeout: to},
+		}
 	case "C19":
 		return []Part{{Name: "script", N: q(tier, 12, 300), Chunk: 1, Timeout: to}}
 	case "C20":
